@@ -3467,11 +3467,433 @@ Definition ex08_invalid_queued : list op :=
    NewMapN Sum [4%nat]; Observe 6%nat; Stabilize []; SetVar 0%nat 2; Stabilize []; AddInput 6%nat 0%nat].
 
 Lemma C08_popped_invalid_does_not_run_refuted :
-  exists s s', run (init 256) ex08_invalid_queued = Ok s /\
-    valid (nd s 6%nat) = false /\ inHeap s 6%nat = true /\
-    stabilize [] false (s <| log := [] |>) = Ok (s', None) /\
-    rev (log s') = [EvPassStart; EvInvoked 6%nat [1; 2] 3; EvPassEnd XOk; EvUpd 6%nat; EvObsUpd 7%nat 3].
+  let s := reach ex08_invalid_queued in
+  is_ok (run (init 256) ex08_invalid_queued) = true /\
+  valid (nd s 6%nat) = false /\ inHeap s 6%nat = true /\
+  match stabilize [] false (s <| log := [] |>) with
+  | Ok (s', e) => e = None /\
+      rev (log s') = [EvPassStart; EvInvoked 6%nat [1; 2] 3; EvPassEnd XOk; EvUpd 6%nat; EvObsUpd 7%nat 3]
+  | _ => False
+  end.
+Proof. vm_compute. repeat split. Qed.
+
+(** * 10. C12.7 (partial): a mid-pass write does not alter what a recompute computes.
+    Two runs of [recomputeNodeSerial] on states that agree up to [pending] fields and [setDuring],
+    under plans with the same faults (they may differ in their writes), end in states that agree
+    up to [pending] fields and [setDuring], with the same error, the same immediate child and the
+    same log.  Proved for every kind of node but a bind's lhs-change node. *)
+Lemma pendOnly_sym s t : pendOnly s t -> pendOnly t s.
 Proof.
-  eexists _, _. split; [vm_compute; reflexivity|]. split; [vm_compute; reflexivity|].
-  split; [vm_compute; reflexivity|]. split; [vm_compute; reflexivity|]. vm_compute. reflexivity.
+  intros (A1 & A2 & A3 & A4 & A5 & A6 & A7 & A8 & A9 & A10).
+  do 8 (split; [congruence|]). split.
+  - intros m. rewrite (A9 m). generalize (pending (nd t m)). intros q. destruct (nd s m); reflexivity.
+  - intros m. symmetry. apply A10.
+Qed.
+
+Lemma pendOnly_upd s t n f g :
+  pendOnly s t -> (forall x q, g (x <| pending := q |>) = f x <| pending := q |>) ->
+  pendOnly (upd s n f) (upd t n g).
+Proof.
+  intros P Hfg. pose proof P as (A1 & A2 & A3 & A4 & A5 & A6 & A7 & A8 & A9 & A10).
+  do 8 (split; [assumption|]). split.
+  - intros m. rewrite !nd_upd_if. destruct (decide (m = n)) as [->|]; [|apply A9].
+    destruct (nodes t !! n) eqn:Et, (nodes s !! n) eqn:Es.
+    + rewrite (A9 n), Hfg. destruct (f (nd s n)); reflexivity.
+    + exfalso. assert (H : is_Some (nodes s !! n)) by (apply A10; rewrite Et; eauto). rewrite Es in H. destruct H as [? [=]].
+    + exfalso. assert (H : is_Some (nodes t !! n)) by (apply A10; rewrite Es; eauto). rewrite Et in H. destruct H as [? [=]].
+    + reflexivity.
+  - intros m. rewrite !some_upd. apply A10.
+Qed.
+
+Lemma pendOnly_emit e s t : pendOnly s t -> pendOnly (emit e s) (emit e t).
+Proof.
+  intros (A1 & A2 & A3 & A4 & A5 & A6 & A7 & A8 & A9 & A10). unfold pendOnly. cbn.
+  rewrite A2. do 8 (split; [assumption || reflexivity|]). split; [exact A9|exact A10].
+Qed.
+
+Lemma pendOnly_set_heap w s t : pendOnly s t -> pendOnly (s <| heap := w |>) (t <| heap := w |>).
+Proof.
+  intros (A1 & A2 & A3 & A4 & A5 & A6 & A7 & A8 & A9 & A10). unfold pendOnly. cbn.
+  do 8 (split; [assumption || reflexivity|]). split; [exact A9|exact A10].
+Qed.
+
+Lemma pendOnly_set_handlers h s t : pendOnly s t -> pendOnly (s <| handlers := h |>) (t <| handlers := h |>).
+Proof.
+  intros (A1 & A2 & A3 & A4 & A5 & A6 & A7 & A8 & A9 & A10). unfold pendOnly. cbn.
+  do 8 (split; [assumption || reflexivity|]). split; [exact A9|exact A10].
+Qed.
+
+Lemma pendOnly_inHeap s t m : pendOnly s t -> inHeap t m = inHeap s m.
+Proof. intros (A1 & _). unfold inHeap. rewrite A1. reflexivity. Qed.
+
+Lemma existsb_ext_local {A} (f g : A -> bool) l : (forall x, f x = g x) -> existsb f l = existsb g l.
+Proof. intros H. induction l as [|a l IH]; cbn; [reflexivity|]. rewrite H, IH. reflexivity. Qed.
+
+Lemma pendOnly_isStale s t c : pendOnly s t -> isStale t c = isStale s c.
+Proof.
+  intros P. unfold isStale, staleWrtParents.
+  destruct (pendOnly_fields s t c P) as (K & _ & _ & R & _ & _ & V & Pa & _). rewrite K, R, V, Pa.
+  f_equal. destruct (nkind (nd s c)); try reflexivity; f_equal;
+    apply existsb_ext_local; intros p; destruct (pendOnly_fields s t p P) as (_ & _ & _ & _ & C & _); rewrite C; reflexivity.
+Qed.
+
+Lemma pendOnly_src s t c : pendOnly s t -> shouldRecomputeChild t c = shouldRecomputeChild s c.
+Proof.
+  intros P. unfold shouldRecomputeChild.
+  rewrite (pendOnly_inHeap s t c P), (pendOnly_isStale s t c P).
+  destruct (pendOnly_fields s t c P) as (K & _ & _ & R & _ & _ & V & _ & _ & _ & _ & N).
+  destruct P as (_ & _ & St & _). rewrite K, R, V, N, St. reflexivity.
+Qed.
+
+Lemma pendOnly_cri s t n c : pendOnly s t -> canRecomputeImmediately t n c = canRecomputeImmediately s n c.
+Proof.
+  intros P. unfold canRecomputeImmediately, scopeHeight.
+  destruct (pendOnly_fields s t c P) as (K & _ & _ & _ & _ & H & _ & Pa & _ & _ & Sc & _).
+  destruct (pendOnly_fields s t n P) as (_ & _ & _ & _ & _ & Hn & _).
+  rewrite K, H, Pa, Sc, Hn.
+  assert (Es : match scope (nd s c) with Some b => height (nd t b) | None => unset end
+             = match scope (nd s c) with Some b => height (nd s b) | None => unset end).
+  { destruct (scope (nd s c)) as [b|]; [|reflexivity]. destruct (pendOnly_fields s t b P) as (_ & _ & _ & _ & _ & Hb & _). exact Hb. }
+  rewrite Es. destruct P as (A1 & _). rewrite A1. reflexivity.
+Qed.
+
+Lemma pendOnly_heapAdd s t n s' t' :
+  pendOnly s t -> heapAdd s n = Ok s' -> heapAdd t n = Ok t' -> pendOnly s' t'.
+Proof.
+  intros P. unfold heapAdd. destruct (pendOnly_fields s t n P) as (_ & _ & _ & _ & _ & H & _).
+  pose proof P as (A1 & _). rewrite A1, H. intros Hs Ht.
+  apply rbind_ok in Hs as (w & Hw & [= <-]). rewrite Hw in Ht. injection Ht as <-.
+  apply pendOnly_set_heap, P.
+Qed.
+
+Lemma pendOnly_heapAddIfNotPresent s t n s' t' :
+  pendOnly s t -> heapAddIfNotPresent s n = Ok s' -> heapAddIfNotPresent t n = Ok t' -> pendOnly s' t'.
+Proof.
+  intros P. unfold heapAddIfNotPresent. rewrite (pendOnly_inHeap s t n P).
+  destruct (inHeap s n); [intros [= <-] [= <-]; exact P|apply pendOnly_heapAdd, P].
+Qed.
+
+Lemma pendOnly_childrenLoop_gen l : forall s t held s' held1 t' held2,
+  pendOnly s t ->
+  rfold (fun '(s, held) c =>
+         if bool_decide (held = Some c) then Ok (s, held)
+         else if negb (shouldRecomputeChild s c) then Ok (s, held)
+         else
+           s <-! (match held with Some h => heapAdd s h | None => Ok s end);
+           Ok (s, Some c)) l (s, held) = Ok (s', held1) ->
+  rfold (fun '(s, held) c =>
+         if bool_decide (held = Some c) then Ok (s, held)
+         else if negb (shouldRecomputeChild s c) then Ok (s, held)
+         else
+           s <-! (match held with Some h => heapAdd s h | None => Ok s end);
+           Ok (s, Some c)) l (t, held) = Ok (t', held2) ->
+  pendOnly s' t' /\ held1 = held2.
+Proof.
+  induction l as [|c l IH]; intros s t held s' held1 t' held2 P Hs Ht; cbn [rfold] in Hs, Ht.
+  - injection Hs as <- <-. injection Ht as <- <-. auto.
+  - apply rbind_ok in Hs as ([s1 h1] & Hs1 & Hs). apply rbind_ok in Ht as ([t1 h2] & Ht1 & Ht).
+    rewrite (pendOnly_src s t c P) in Ht1.
+    assert (P1 : pendOnly s1 t1 /\ h1 = h2).
+    { destruct (bool_decide _); [injection Hs1 as <- <-; injection Ht1 as <- <-; auto|].
+      destruct (negb _); [injection Hs1 as <- <-; injection Ht1 as <- <-; auto|].
+      apply rbind_ok in Hs1 as (s2 & Hs2 & [= <- <-]). apply rbind_ok in Ht1 as (t2 & Ht2 & [= <- <-]).
+      split; [|reflexivity]. destruct held; [eapply pendOnly_heapAdd; eauto|injection Hs2 as <-; injection Ht2 as <-; exact P]. }
+    destruct P1 as [P1 <-]. eapply IH; eauto.
+Qed.
+
+Lemma pendOnly_successTail s t n s' e1 imm1 t' e2 imm2 :
+  pendOnly s t -> successTail s n = Ok (s', e1, imm1) -> successTail t n = Ok (t', e2, imm2) ->
+  pendOnly s' t' /\ e1 = e2 /\ imm1 = imm2.
+Proof.
+  intros P. unfold successTail, childrenLoop. intros Hs Ht.
+  pose proof P as (_ & _ & St & _ & Hh & _).
+  set (s0 := insert_handler n (upd s n _)) in *. set (t0 := insert_handler n (upd t n _)) in *.
+  assert (P0 : pendOnly s0 t0).
+  { unfold s0, t0, insert_handler. change (handlers (upd t n ?f)) with (handlers t).
+    change (handlers (upd s n ?f)) with (handlers s). rewrite Hh. apply pendOnly_set_handlers.
+    rewrite St. apply pendOnly_upd; [exact P|]. intros [] q; reflexivity. }
+  apply rbind_ok in Hs as ([s1 h1] & Hs1 & Hs). apply rbind_ok in Ht as ([t1 h2] & Ht1 & Ht).
+  assert (Ec : children (nd t0 n) = children (nd s0 n)) by (destruct (pendOnly_fields _ _ n P0) as (_ & _ & _ & _ & _ & _ & _ & _ & C & _); exact C).
+  rewrite Ec in Ht1.
+  destruct (pendOnly_childrenLoop_gen _ _ _ _ _ _ _ _ P0 Hs1 Ht1) as [P1 <-].
+  apply rbind_ok in Hs as ([s2 i1] & Hs2 & [= <- <- <-]). apply rbind_ok in Ht as ([t2 i2] & Ht2 & [= <- <- <-]).
+  assert (P2 : pendOnly s2 t2 /\ i1 = i2).
+  { destruct h1 as [h|]; [|injection Hs2 as <- <-; injection Ht2 as <- <-; auto].
+    rewrite (pendOnly_cri s1 t1 n h P1) in Ht2. destruct (canRecomputeImmediately s1 n h).
+    - injection Hs2 as <- <-. injection Ht2 as <- <-. auto.
+    - apply rbind_ok in Hs2 as (s3 & Hs3 & [= <- <-]). apply rbind_ok in Ht2 as (t3 & Ht3 & [= <- <-]).
+      split; [eapply pendOnly_heapAdd; eauto|reflexivity]. }
+  destruct P2 as [P2 <-]. split; [|auto].
+  rewrite !insert_handlers_eq.
+  destruct (pendOnly_fields _ _ n P2) as (_ & _ & _ & _ & _ & _ & _ & _ & _ & O & _).
+  pose proof P2 as (_ & _ & _ & _ & Hh2 & _). rewrite O, Hh2. apply pendOnly_set_handlers, P2.
+Qed.
+
+Lemma pendOnly_errorHandlers s t n : pendOnly s t -> pendOnly (errorHandlers s n) (errorHandlers t n).
+Proof.
+  intros P. unfold errorHandlers, bd. destruct (pendOnly_fields s t n P) as (K & _).
+  pose proof P as (_ & _ & _ & _ & _ & _ & _ & B & _). rewrite K, B.
+  destruct (nkind (nd s n)); repeat apply pendOnly_emit; exact P.
+Qed.
+
+Lemma pendOnly_failTail s t n prev e s' e1 imm1 t' e2 imm2 :
+  pendOnly s t -> failTail s n prev e = Ok (s', e1, imm1) -> failTail t n prev e = Ok (t', e2, imm2) ->
+  pendOnly s' t' /\ e1 = e2 /\ imm1 = imm2.
+Proof.
+  intros P. unfold failTail, recomputeFailed.
+  assert (G : forall s3 t3, heapAddIfNotPresent (upd s n (set recomputedAt (fun _ => prev))) n = Ok s3 ->
+              heapAddIfNotPresent (upd t n (set recomputedAt (fun _ => prev))) n = Ok t3 ->
+              pendOnly (errorHandlers s3 n) (errorHandlers t3 n)).
+  { intros s3 t3 H3 H4. apply pendOnly_errorHandlers. eapply pendOnly_heapAddIfNotPresent; [|exact H3|exact H4].
+    apply pendOnly_upd; [exact P|]. intros [] q; reflexivity. }
+  destruct e; try (intros Hs Ht; apply rbind_ok in Hs as (s3 & H3 & [= <- <- <-]);
+                   apply rbind_ok in Ht as (t3 & H4 & [= <- <- <-]); split; [eapply G; eauto|auto]).
+  intros [= <- <- <-] [= <- <- <-]. auto.
+Qed.
+
+(* an invocation during a pass, under two plans with the same fault *)
+Lemma pendOnly_invoke p q s t n w s' e1 t' e2 :
+  status s = 1 -> pendOnly s t -> firstFault (actions_of p n w) = firstFault (actions_of q n w) ->
+  invoke p s n w = Ok (s', e1) -> invoke q t n w = Ok (t', e2) -> pendOnly s' t' /\ e1 = e2.
+Proof.
+  intros Hst P Hf Hs Ht. assert (Hst' : status t = 1) by (destruct P as (_ & _ & _ & -> & _); exact Hst).
+  pose proof (invoke_spec _ _ _ _ _ _ Hs) as (-> & _). pose proof (invoke_spec _ _ _ _ _ _ Ht) as (-> & _).
+  apply (invoke_midpass _ _ _ _ _ _ Hst) in Hs as (s1 & Ps & ->).
+  apply (invoke_midpass _ _ _ _ _ _ Hst') in Ht as (t1 & Pt & ->).
+  rewrite Hf. split; [|reflexivity].
+  assert (P1 : pendOnly s1 t1).
+  { apply (pendOnly_trans _ s); [apply pendOnly_sym, Ps|]. apply (pendOnly_trans _ t); [exact P|exact Pt]. }
+  destruct (firstFault (actions_of q n w)); [apply pendOnly_emit|]; exact P1.
+Qed.
+
+Lemma pendOnly_status s t : pendOnly s t -> status t = status s.
+Proof. intros (_ & _ & _ & E & _). exact E. Qed.
+
+(** C12.7, for one recompute of a node that is not a bind's lhs-change node *)
+Lemma C12_midpass_noninterference_recompute_partial fuel p q s t n s' e1 imm1 t' e2 imm2 :
+  status s = 1 -> pendOnly s t ->
+  (forall w, firstFault (actions_of p n w) = firstFault (actions_of q n w)) ->
+  (forall b, nkind (nd s n) <> KBindLhs b) ->
+  recomputeNodeSerial fuel p s n = Ok (s', e1, imm1) ->
+  recomputeNodeSerial fuel q t n = Ok (t', e2, imm2) ->
+  pendOnly s' t' /\ e1 = e2 /\ imm1 = imm2 /\ log t' = log s'.
+Proof.
+  intros Hst P Hf Hk Hs Ht.
+  enough (G : pendOnly s' t' /\ e1 = e2 /\ imm1 = imm2).
+  { destruct G as (G & -> & ->). split; [exact G|]. split; [reflexivity|]. split; [reflexivity|]. destruct G as (_ & G & _). exact G. }
+  rewrite recomputeNodeSerial_unfold in Hs, Ht. cbv zeta in Hs, Ht.
+  destruct (pendOnly_fields s t n P) as (K & D & V & R & _).
+  pose proof P as (_ & _ & St & _).
+  rewrite R, St in Ht.
+  set (s0 := upd s n _) in *. set (t0 := upd t n _) in *.
+  assert (P0 : pendOnly s0 t0) by (apply pendOnly_upd; [exact P|]; intros [] r; reflexivity).
+  assert (Hst0 : status s0 = 1) by exact Hst.
+  apply rbind_ok in Hs as ([[s1 x1] c1] & Hs1 & Hs). apply rbind_ok in Ht as ([[t1 x2] c2] & Ht1 & Ht).
+  (* the cutoff test *)
+  assert (P1 : pendOnly s1 t1 /\ x1 = x2 /\ c1 = c2).
+  { unfold maybeCutoff in Hs1, Ht1. rewrite K, V, D in Ht1.
+    rewrite (valueOf_pendOnly _ _ _ P0) in Ht1.
+    destruct (nkind (nd s n)); try (injection Hs1 as <- <- <-; injection Ht1 as <- <- <-; auto).
+    apply rbind_ok in Hs1 as ([s2 y1] & Hs2 & Hs1). apply rbind_ok in Ht1 as ([t2 y2] & Ht2 & Ht1).
+    destruct (pendOnly_invoke _ _ _ _ _ _ _ _ _ _ Hst0 P0 (Hf WCut) Hs2 Ht2) as [P2 <-].
+    destruct y1; injection Hs1 as <- <- <-; injection Ht1 as <- <- <-; auto.
+    split; [apply pendOnly_emit, P2|auto]. }
+  destruct P1 as (P1 & <- & <-).
+  destruct x1 as [x1|]; [eapply pendOnly_failTail; eauto|].
+  destruct c1; [injection Hs as <- <- <-; injection Ht as <- <- <-; auto|].
+  apply rbind_ok in Hs as ([s2 y1] & Hs2 & Hs). apply rbind_ok in Ht as ([t2 y2] & Ht2 & Ht).
+  assert (Hst1 : status s1 = 1).
+  { apply pf_maybeCutoff in Hs1 as (_ & _ & E & _). rewrite E. exact Hst0. }
+  assert (K1 : nkind (nd s1 n) = nkind (nd s n)).
+  { apply maybeCutoff_spec in Hs1 as (V1 & _). destruct (vps_fields _ _ (V1 n)) as (E & _). rewrite E.
+    apply (nd_upd_keep nkind). intros []; reflexivity. }
+  assert (R1 : recomputedAt (nd s1 n) = stabNum s1 \/ ~ is_Some (nodes s !! n)).
+  { destruct (nodes s !! n) eqn:En; [left|right; intros [? [=]]].
+    pose proof Hs1 as Hs1'. apply maybeCutoff_spec in Hs1 as (V1 & _). destruct (vps_fields _ _ (V1 n)) as (_ & _ & _ & _ & _ & E & _).
+    rewrite E. unfold s0. rewrite nd_upd_same by (rewrite En; eauto).
+    apply pf_maybeCutoff in Hs1' as (_ & E2 & _). rewrite E2. destruct (nd s n); reflexivity. }
+  (* the stabilize step *)
+  assert (P2 : pendOnly s2 t2 /\ y1 = y2).
+  { destruct (pendOnly_fields s1 t1 n P1) as (Kt & Dt & Vt & Rt & _).
+    pose proof P1 as (_ & _ & St1 & _ & _ & _ & _ & B1 & _).
+    unfold stabilizeNode in Hs2, Ht2. rewrite Kt, Dt in Ht2. rewrite K1 in *.
+    destruct (nkind (nd s n)) eqn:Ekind.
+    - (* a var: stamped by this very recompute, so a deferred value is not taken *)
+      assert (Hs' : is_Some (nodes s !! n)) by (apply nd_some_kind; rewrite Ekind; discriminate).
+      destruct R1 as [R1|R1]; [|contradiction].
+      rewrite Rt, St1, R1, Z.eqb_refl in Ht2. rewrite R1, Z.eqb_refl in Hs2.
+      destruct (pending (nd s1 n)), (pending (nd t1 n)); injection Hs2 as <- <-; injection Ht2 as <- <-; auto.
+    - injection Hs2 as <- <-; injection Ht2 as <- <-; auto.
+    - rewrite (valueOf_pendOnly _ _ _ P1) in Ht2.
+      apply rbind_ok in Hs2 as ([s3 z1] & Hs3 & Hs2). apply rbind_ok in Ht2 as ([t3 z2] & Ht3 & Ht2).
+      destruct (pendOnly_invoke _ _ _ _ _ _ _ _ _ _ Hst1 P1 (Hf WFn) Hs3 Ht3) as [P3 <-].
+      destruct z1; injection Hs2 as <- <-; injection Ht2 as <- <-; [auto|].
+      split; [|reflexivity]. apply pendOnly_emit, pendOnly_upd; [exact P3|]. intros [] r; reflexivity.
+    - rewrite !(valueOf_pendOnly _ _ _ P1) in Ht2.
+      apply rbind_ok in Hs2 as ([s3 z1] & Hs3 & Hs2). apply rbind_ok in Ht2 as ([t3 z2] & Ht3 & Ht2).
+      destruct (pendOnly_invoke _ _ _ _ _ _ _ _ _ _ Hst1 P1 (Hf WFn) Hs3 Ht3) as [P3 <-].
+      destruct z1; injection Hs2 as <- <-; injection Ht2 as <- <-; [auto|].
+      split; [|reflexivity]. apply pendOnly_emit, pendOnly_upd; [exact P3|]. intros [] r; reflexivity.
+    - assert (Em : map (valueOf t1) (decl (nd s1 n)) = map (valueOf s1) (decl (nd s1 n)))
+        by (apply map_ext; intros a; apply valueOf_pendOnly, P1).
+      rewrite Em in Ht2.
+      apply rbind_ok in Hs2 as ([s3 z1] & Hs3 & Hs2). apply rbind_ok in Ht2 as ([t3 z2] & Ht3 & Ht2).
+      destruct (pendOnly_invoke _ _ _ _ _ _ _ _ _ _ Hst1 P1 (Hf WFn) Hs3 Ht3) as [P3 <-].
+      destruct z1; injection Hs2 as <- <-; injection Ht2 as <- <-; [auto|].
+      split; [|reflexivity]. apply pendOnly_emit, pendOnly_upd; [exact P3|]. intros [] r; reflexivity.
+    - rewrite (valueOf_pendOnly _ _ _ P1) in Ht2. injection Hs2 as <- <-; injection Ht2 as <- <-.
+      split; [|reflexivity]. apply pendOnly_upd; [exact P1|]. intros [] r; reflexivity.
+    - injection Hs2 as <- <-; injection Ht2 as <- <-; auto.
+    - exfalso. eapply Hk. reflexivity.
+    - unfold bd in Ht2. rewrite B1 in Ht2. fold (bd s1 b) in Ht2.
+      assert (Ev : match b_rhs (bd s1 b) with Some r => valueOf t1 r | None => 0 end
+                 = match b_rhs (bd s1 b) with Some r => valueOf s1 r | None => 0 end)
+        by (destruct (b_rhs (bd s1 b)); [apply valueOf_pendOnly, P1|reflexivity]).
+      rewrite Ev in Ht2. injection Hs2 as <- <-; injection Ht2 as <- <-.
+      split; [|reflexivity]. apply pendOnly_upd; [exact P1|]. intros [] r; reflexivity. }
+  destruct P2 as (P2 & <-).
+  destruct y1 as [y1|]; [eapply pendOnly_failTail; eauto|].
+  eapply pendOnly_successTail; eauto.
+Qed.
+
+(** * 11. C08, continued: a bind's main node takes its right-hand side with it; every node that
+    goes from valid to invalid is logged *)
+
+(* teardown changes neither kinds nor bind records *)
+Definition KB (s s' : state) : Prop := (forall r, nkind (nd s' r) = nkind (nd s r)) /\ binds s' = binds s.
+Lemma KB_refl s : KB s s. Proof. split; auto. Qed.
+Lemma KB_trans s1 s2 s3 : KB s1 s2 -> KB s2 s3 -> KB s1 s3.
+Proof. intros (A1 & A2) (B1 & B2). split; [intros r; rewrite B1; apply A1|congruence]. Qed.
+Lemma KB_upd s n f : (forall x, nkind (f x) = nkind x) -> KB s (upd s n f).
+Proof. intros Hf. split; [intros r; apply (nd_upd_keep nkind), Hf|reflexivity]. Qed.
+Lemma KB_same s s' : nodes s' = nodes s -> binds s' = binds s -> KB s s'.
+Proof. intros En Eb. unfold KB, nd. rewrite En. auto. Qed.
+Lemma KB_removeNode s n s' : removeNode s n = Ok s' -> KB s s'.
+Proof.
+  unfold removeNode, zeroNode. intros H. apply rbind_ok in H as (s1 & H1 & [= <-]).
+  set (s0 := if inGraph (nd s n) then _ else s) in *.
+  assert (D0 : KB s s0).
+  { unfold s0. destruct (inGraph (nd s n)); [|apply KB_refl].
+    apply (KB_trans _ (upd s n (set inGraph (fun _ => false)))); [apply KB_upd; intros []; reflexivity|].
+    apply KB_same; reflexivity. }
+  assert (D1 : KB s0 s1).
+  { destruct (inHeap s0 n); [|injection H1 as <-; apply KB_refl].
+    unfold heapRemove in H1. apply rbind_ok in H1 as (w & _ & [= <-]). apply KB_same; reflexivity. }
+  eapply KB_trans; [exact D0|]. eapply KB_trans; [exact D1|].
+  eapply KB_trans; [|apply KB_upd; intros []; reflexivity]. apply KB_same; reflexivity.
+Qed.
+Lemma KB_rfold {A} (f : state -> A -> res state) l :
+  (forall s a s', f s a = Ok s' -> KB s s') -> forall s s', rfold f l s = Ok s' -> KB s s'.
+Proof.
+  intros Hf. induction l as [|a l IH]; intros s s' H; cbn in H.
+  - injection H as <-. apply KB_refl.
+  - apply rbind_ok in H as (s1 & H1 & H). eapply KB_trans; [eapply Hf, H1|eapply IH, H].
+Qed.
+Lemma KB_removeParents fuel : forall s c s', removeParents fuel s c = Ok s' -> KB s s'.
+Proof.
+  induction fuel as [|fuel IH]; intros s c s' H; [discriminate|]. cbn [removeParents] in H.
+  revert H. apply KB_rfold. clear s s'. intros s p s' H.
+  assert (Du : KB s (unlink s c p)) by (unfold unlink; eapply KB_trans; apply KB_upd; intros []; reflexivity).
+  destruct (isNecessary _); [injection H as <-; exact Du|].
+  destruct (negb _); [injection H as <-; exact Du|].
+  apply rbind_ok in H as (s1 & H1%IH & H%KB_removeNode).
+  eapply KB_trans; [exact Du|].
+  apply (KB_trans _ (emit (EvUnnec p) (unlink s c p))); [apply KB_same; reflexivity|]. eapply KB_trans; eauto.
+Qed.
+
+(** C08.2, second half: invalidating a bind's main node invalidates the nodes of its right-hand side *)
+Lemma C08_invalidate_main_invalidates_rhs fuel s n b s' :
+  invalidateNode (S fuel) s n = Ok s' -> valid (nd s n) = true -> nkind (nd s n) = KBindMain b ->
+  forall r, r ∈ b_rhsNodes (bd s b) -> is_Some (nodes s !! r) -> valid (nd s' r) = false.
+Proof.
+  cbn [invalidateNode]. intros H Ev Hk r Hr Hs. rewrite Ev in H. cbn [negb] in H.
+  apply rbind_ok in H as (s1 & H1 & H). apply rbind_ok in H as (s2 & H2 & H).
+  set (s0 := upd (emit (EvInval n) s) n _) in *.
+  assert (K0 : KB s s0).
+  { apply (KB_trans _ (emit (EvInval n) s)); [apply KB_same; reflexivity|apply KB_upd; intros []; reflexivity]. }
+  assert (D0 : VP s s0) by (eapply VP_trans; [apply VP_emit|apply VP_upd; intros []; cbn; auto]).
+  assert (K1 : KB s0 s1 /\ VP s0 s1).
+  { destruct (isNecessary (nd s0 n)); [|injection H1 as <-; split; [apply KB_refl|apply VP_refl]].
+    apply rbind_ok in H1 as (s3 & H3 & [= <-]). split.
+    - eapply KB_trans; [eapply KB_removeParents, H3|apply KB_upd; intros []; reflexivity].
+    - eapply VP_trans; [eapply VP_removeParents, H3|apply VP_upd; intros []; cbn; auto]. }
+  destruct K1 as [K1 D1]. pose proof (KB_trans _ _ _ K0 K1) as (Kk & Kb).
+  rewrite Kk, Hk in H2. unfold bd in H2. rewrite Kb in H2. fold (bd s b) in H2.
+  apply rfold_invalidate_all in H2 as (_ & _ & H2).
+  assert (V2 : valid (nd s2 r) = false).
+  { apply H2; [exact Hr|]. destruct D1 as (_ & _ & D1). destruct D0 as (_ & _ & D0). auto. }
+  assert (V3 : valid (nd (upd s2 n (set valid (fun _ => false))) r) = false).
+  { apply (proj1 (VP_upd s2 n (set valid (fun _ => false)) ltac:(intros []; cbn; auto))). exact V2. }
+  destruct (inHeap _ n); [|injection H as <-; exact V3].
+  apply VP_heapRemove in H as (H & _). apply H. exact V3.
+Qed.
+
+Definition logsInval (s s' : state) : Prop :=
+  exists L, log s' = L ++ log s /\
+    forall r, valid (nd s r) = true -> valid (nd s' r) = false -> EvInval r ∈ L.
+
+Lemma rfold_logsInval {A} (f : state -> A -> res state) l :
+  (forall s a s', f s a = Ok s' -> logsInval s s') -> forall s s', rfold f l s = Ok s' -> logsInval s s'.
+Proof.
+  intros Hf. induction l as [|x l IH]; intros s s' H; cbn [rfold] in H.
+  - injection H as <-. exists []. split; [reflexivity|intros; congruence].
+  - apply rbind_ok in H as (t & Ht & H). destruct (Hf _ _ _ Ht) as (La & Ea & Ha).
+    destruct (IH _ _ H) as (Lb & Eb & Hb). exists (Lb ++ La). split; [rewrite Eb, Ea, app_assoc; reflexivity|].
+    intros r Hr1 Hr2. apply elem_of_app. destruct (valid (nd t r)) eqn:Et; [left; apply Hb; assumption|right; apply Ha; assumption].
+Qed.
+
+(** every node that an invalidation takes from valid to invalid has its [EvInval] in the log *)
+Lemma invalidate_logs fuel : forall s n s',
+  invalidateNode fuel s n = Ok s' ->
+  exists L, log s' = L ++ log s /\
+    forall r, valid (nd s r) = true -> valid (nd s' r) = false -> EvInval r ∈ L.
+Proof.
+  induction fuel as [|fuel IH]; intros s n s' H; [discriminate|]. cbn [invalidateNode] in H.
+  destruct (valid (nd s n)) eqn:Ev; cbn [negb] in H.
+  2:{ injection H as <-. exists []. split; [reflexivity|]. intros r H1 H2. congruence. }
+  apply rbind_ok in H as (s1 & H1 & H). apply rbind_ok in H as (s2 & H2 & H).
+  set (s0 := upd (emit (EvInval n) s) n _) in *.
+  assert (V0 : forall r, valid (nd s0 r) = valid (nd s r)).
+  { intros r. unfold s0. rewrite (nd_upd_keep valid) by (intros []; reflexivity). reflexivity. }
+  assert (S1 : (forall r, valid (nd s1 r) = valid (nd s0 r)) /\ exists L, log s1 = L ++ log s0).
+  { destruct (isNecessary (nd s0 n)).
+    - apply rbind_ok in H1 as (s3 & H3 & [= <-]). split.
+      + intros r. rewrite (nd_upd_keep valid) by (intros []; reflexivity). apply (VE_removeParents _ _ _ _ H3).
+      + apply pf_removeParents in H3 as (_ & _ & _ & _ & _ & _ & _ & L & EL & _). exists L. exact EL.
+    - injection H1 as <-. split; [auto|exists []; reflexivity]. }
+  destruct S1 as (V1 & L1 & EL1).
+  assert (S2 : exists L, log s2 = L ++ log s1 /\
+            forall r, valid (nd s1 r) = true -> valid (nd s2 r) = false -> EvInval r ∈ L).
+  { destruct (nkind (nd s1 n)); try (injection H2 as <-; exists []; split; [reflexivity|intros; congruence]).
+    revert H2. apply rfold_logsInval. intros t a t' Ht. apply (IH _ _ _ Ht). }
+  destruct S2 as (L2 & EL2 & HL2).
+  set (s3 := upd s2 n (set valid (fun _ => false))) in *.
+  assert (Hfin : log s' = log s2 /\ forall r, r <> n -> valid (nd s' r) = valid (nd s2 r)).
+  { destruct (inHeap _ n).
+    - unfold heapRemove in H. apply rbind_ok in H as (w & _ & [= <-]). split; [reflexivity|].
+      intros r Hne. change (valid (nd s3 r) = valid (nd s2 r)). unfold s3. rewrite nd_upd_other by exact Hne. reflexivity.
+    - injection H as <-. split; [reflexivity|].
+      intros r Hne. change (valid (nd s3 r) = valid (nd s2 r)). unfold s3. rewrite nd_upd_other by exact Hne. reflexivity. }
+  destruct Hfin as (Elog & Hother).
+  exists (L2 ++ L1 ++ [EvInval n]). split.
+  { rewrite Elog, EL2, EL1. change (log s0) with (EvInval n :: log s). rewrite <- !app_assoc. reflexivity. }
+  intros r Hr1 Hr2. destruct (decide (r = n)) as [->|Hne].
+  - rewrite !elem_of_app, elem_of_list_singleton. auto.
+  - rewrite Hother in Hr2 by exact Hne. rewrite elem_of_app. left. apply HL2; [|exact Hr2].
+    rewrite V1, V0. exact Hr1.
+Qed.
+
+Lemma rfold_invalidate_logs fuel l s s' :
+  rfold (invalidateNode fuel) l s = Ok s' -> logsInval s s'.
+Proof. apply rfold_logsInval. intros t a t'. apply invalidate_logs. Qed.
+
+(** C08.3, the log: in the invalidation of the old generation every node that was still valid gets
+    its [EvInval] *)
+Lemma C08_old_generation_logged fuel l s s' :
+  rfold (invalidateNode fuel) l s = Ok s' ->
+  exists L, log s' = L ++ log s /\
+    forall r, r ∈ l -> is_Some (nodes s !! r) -> valid (nd s r) = true -> EvInval r ∈ L.
+Proof.
+  intros H. destruct (rfold_invalidate_logs _ _ _ _ H) as (L & EL & HL). exists L. split; [exact EL|].
+  intros r Hr Hs Hv. apply HL; [exact Hv|]. apply (proj2 (proj2 (rfold_invalidate_all _ _ _ _ H))); assumption.
 Qed.
